@@ -102,3 +102,232 @@ where
         }
     }
 }
+
+// ---------------------------------------------------------------------------
+// Mutation tracing: with `GRAPHRS_VERIF_TRACE=<path prefix>` in the environment every
+// outermost `add_node` / `add_edge` call on a small graph appends one JSON line
+// (specs, operation, argument, outcome, every private index before and after) to
+// `<prefix>.<pid>.ndjson`, so that executions of the ordinary test suite can be
+// checked against a specification.  Node names are written as their 1-based rank in
+// the `Ord` order of all names involved; attributes as 0 (None) / 1 (Some).
+
+use crate::{Error, GraphSpecs};
+use std::cell::Cell;
+use std::io::Write;
+use std::sync::atomic::{AtomicUsize, Ordering};
+use std::sync::{Mutex, OnceLock};
+
+/// Graphs with more nodes or node pairs than this are not traced.
+const TRACE_MAX_NODES: usize = 9;
+const TRACE_MAX_PAIRS: usize = 20;
+
+thread_local! {
+    static IN_TRACED_CALL: Cell<bool> = const { Cell::new(false) };
+}
+static TRACE_FILE: OnceLock<Option<Mutex<std::fs::File>>> = OnceLock::new();
+static TRACE_SKIPPED: AtomicUsize = AtomicUsize::new(0);
+
+fn trace_file() -> &'static Option<Mutex<std::fs::File>> {
+    TRACE_FILE.get_or_init(|| {
+        let prefix = std::env::var("GRAPHRS_VERIF_TRACE").ok()?;
+        let path = format!("{}.{}.ndjson", prefix, std::process::id());
+        let file = std::fs::OpenOptions::new()
+            .create(true)
+            .append(true)
+            .open(path)
+            .ok()?;
+        Some(Mutex::new(file))
+    })
+}
+
+/// Held while a traced mutation runs; nested mutations on the same thread are not traced.
+pub struct TraceToken<T, A> {
+    pre: VerifSnapshot<T, A>,
+}
+
+impl<T, A> Drop for TraceToken<T, A> {
+    fn drop(&mut self) {
+        IN_TRACED_CALL.with(|c| c.set(false));
+    }
+}
+
+fn join<I: IntoIterator<Item = String>>(items: I) -> String {
+    format!("[{}]", items.into_iter().collect::<Vec<_>>().join(","))
+}
+
+fn weight_json(w: f64) -> String {
+    match w.is_finite() {
+        true => format!("{}", w),
+        false => format!("\"{}\"", w),
+    }
+}
+
+fn specs_json(s: &GraphSpecs) -> String {
+    use crate::{EdgeDedupeStrategy, MissingNodeStrategy, SelfLoopsFalseStrategy};
+    format!(
+        "{{\"directed\":{},\"multi\":{},\"loops\":{},\"dedupe\":\"{}\",\"missing\":\"{}\",\"loopfalse\":\"{}\"}}",
+        s.directed,
+        s.multi_edges,
+        s.self_loops,
+        match s.edge_dedupe_strategy {
+            EdgeDedupeStrategy::Error => "Error",
+            EdgeDedupeStrategy::KeepFirst => "KeepFirst",
+            EdgeDedupeStrategy::KeepLast => "KeepLast",
+        },
+        match s.missing_node_strategy {
+            MissingNodeStrategy::Create => "Create",
+            MissingNodeStrategy::Error => "Error",
+        },
+        match s.self_loops_false_strategy {
+            SelfLoopsFalseStrategy::Error => "Error",
+            SelfLoopsFalseStrategy::Drop => "Drop",
+        }
+    )
+}
+
+impl<T: Ord + Clone, A> VerifSnapshot<T, A> {
+    fn collect_names(&self, names: &mut Vec<T>) {
+        names.extend(self.nodes_map.iter().map(|x| x.0.clone()));
+        names.extend(self.nodes_map_rev.iter().map(|x| x.1.clone()));
+        names.extend(self.nodes_vec.iter().map(|x| x.0.clone()));
+        for (k, es) in self.edges.iter() {
+            names.push(k.0.clone());
+            names.push(k.1.clone());
+            es.iter().for_each(|e| names.extend([e.0.clone(), e.1.clone()]));
+        }
+        for (_, es) in self.edges_map.iter() {
+            es.iter().for_each(|e| names.extend([e.0.clone(), e.1.clone()]));
+        }
+        for (k, vs) in self.successors.iter().chain(self.predecessors.iter()) {
+            names.push(k.clone());
+            names.extend(vs.iter().cloned());
+        }
+    }
+
+    /// Hash-map iteration orders are normalised by sorting on the key; the order inside
+    /// the `*_vec` lists and the edge lists is kept.
+    fn to_json(&self, rank: &dyn Fn(&T) -> usize) -> String {
+        let attr = |a: &Option<A>| a.is_some() as u8;
+        let edge_list = |es: &Vec<(T, T, f64, Option<A>)>| {
+            join(es.iter().map(|e| {
+                format!("[{},{},{},{}]", rank(&e.0), rank(&e.1), weight_json(e.2), attr(&e.3))
+            }))
+        };
+        let mut nodes_map: Vec<(usize, usize)> =
+            self.nodes_map.iter().map(|(n, i)| (rank(n), *i)).collect();
+        nodes_map.sort();
+        let mut nodes_map_rev: Vec<(usize, usize, u8)> = self
+            .nodes_map_rev
+            .iter()
+            .map(|(i, n, a)| (*i, rank(n), attr(a)))
+            .collect();
+        nodes_map_rev.sort();
+        let mut edges: Vec<((usize, usize), String)> = self
+            .edges
+            .iter()
+            .map(|(k, es)| ((rank(&k.0), rank(&k.1)), edge_list(es)))
+            .collect();
+        edges.sort();
+        let mut edges_map: Vec<((usize, usize), String)> =
+            self.edges_map.iter().map(|(k, es)| (*k, edge_list(es))).collect();
+        edges_map.sort();
+        let by_name = |m: &Vec<(T, Vec<T>)>| {
+            let mut m: Vec<(usize, Vec<usize>)> = m
+                .iter()
+                .map(|(k, vs)| (rank(k), vs.iter().map(rank).collect()))
+                .collect();
+            m.iter_mut().for_each(|x| x.1.sort());
+            m.sort();
+            join(m.into_iter().map(|(k, vs)| format!("[{},{:?}]", k, vs)))
+        };
+        let by_position = |m: &Vec<(usize, Vec<usize>)>| {
+            let mut m = m.clone();
+            m.iter_mut().for_each(|x| x.1.sort());
+            m.sort();
+            join(m.into_iter().map(|(k, vs)| format!("[{},{:?}]", k, vs)))
+        };
+        let adjacency = |m: &Vec<Vec<(usize, f64)>>| {
+            join(m.iter().map(|l| {
+                join(l.iter().map(|(i, w)| format!("[{},{}]", i, weight_json(*w))))
+            }))
+        };
+        format!(
+            "{{\"nodes_map\":{},\"nodes_map_rev\":{},\"nodes_vec\":{},\"edges\":{},\"edges_map\":{},\
+             \"succ\":{},\"succ_map\":{},\"succ_vec\":{},\"pred\":{},\"pred_map\":{},\"pred_vec\":{}}}",
+            join(nodes_map.iter().map(|(n, i)| format!("[{},{}]", n, i))),
+            join(nodes_map_rev.iter().map(|(i, n, a)| format!("[{},{},{}]", i, n, a))),
+            join(self.nodes_vec.iter().map(|(n, a)| format!("[{},{}]", rank(n), attr(a)))),
+            join(edges.iter().map(|(k, es)| format!("[{},{},{}]", k.0, k.1, es))),
+            join(edges_map.iter().map(|(k, es)| format!("[{},{},{}]", k.0, k.1, es))),
+            by_name(&self.successors),
+            by_position(&self.successors_map),
+            adjacency(&self.successors_vec),
+            by_name(&self.predecessors),
+            by_position(&self.predecessors_map),
+            adjacency(&self.predecessors_vec),
+        )
+    }
+}
+
+impl<T, A> Graph<T, A>
+where
+    T: Eq + Clone + PartialOrd + Ord + Hash + Send + Sync + Display,
+    A: Clone,
+{
+    /// Starts a traced mutation: `None` when tracing is off, when this call is nested in
+    /// a traced call of the same thread, or when the graph is too large to be traced.
+    pub(crate) fn verif_trace_begin(&self) -> Option<TraceToken<T, A>> {
+        trace_file().as_ref()?;
+        if IN_TRACED_CALL.with(|c| c.get()) {
+            return None;
+        }
+        if self.nodes_vec.len() > TRACE_MAX_NODES || self.edges.len() > TRACE_MAX_PAIRS {
+            TRACE_SKIPPED.fetch_add(1, Ordering::Relaxed);
+            return None;
+        }
+        IN_TRACED_CALL.with(|c| c.set(true));
+        Some(TraceToken {
+            pre: self.verif_snapshot(),
+        })
+    }
+
+    /// Ends a traced mutation: writes the record.  `names` are the node names of the
+    /// argument (one for `add_node`, two for `add_edge`).
+    pub(crate) fn verif_trace_end(
+        &self,
+        token: TraceToken<T, A>,
+        op: &str,
+        names: &[&T],
+        weight: f64,
+        has_attributes: bool,
+        result: &Result<(), Error>,
+    ) {
+        let post = self.verif_snapshot();
+        let mut all: Vec<T> = names.iter().map(|n| (*n).clone()).collect();
+        token.pre.collect_names(&mut all);
+        post.collect_names(&mut all);
+        all.sort();
+        all.dedup();
+        let rank = |n: &T| all.binary_search(n).map(|i| i + 1).unwrap_or(0);
+        let line = format!(
+            "{{\"specs\":{},\"op\":\"{}\",\"names\":{:?},\"weight\":{},\"attr\":{},\"res\":\"{}\",\
+             \"thread\":\"{:?}\",\"skipped\":{},\"pre\":{},\"post\":{}}}\n",
+            specs_json(&self.specs),
+            op,
+            names.iter().map(|n| rank(n)).collect::<Vec<_>>(),
+            weight_json(weight),
+            has_attributes as u8,
+            match result {
+                Ok(()) => "Ok".to_string(),
+                Err(e) => format!("{:?}", e.kind),
+            },
+            std::thread::current().id(),
+            TRACE_SKIPPED.load(Ordering::Relaxed),
+            token.pre.to_json(&rank),
+            post.to_json(&rank),
+        );
+        if let Some(file) = trace_file() {
+            let _ = file.lock().unwrap().write_all(line.as_bytes());
+        }
+    }
+}
